@@ -57,12 +57,13 @@ def case_key(case):
     return hashlib.sha256(json.dumps(c, sort_keys=True).encode()).digest()[:12]
 
 
-class CaseTimeout(Exception):
-    pass
+class CaseTimeout(BaseException):
+    """Not an Exception: the `except Exception` handlers of the checks (and
+    of petl) must not take a watchdog for a failure of the code under test."""
 
 
 def _alarm(signum, frame):
-    raise CaseTimeout('case exceeded its wall-clock allowance')
+    raise CaseTimeout('case exceeded its allowance of processor time')
 
 
 def _unraisable(u):
@@ -186,8 +187,14 @@ def run_guarded(mod, case, allowance=30):
     """Run one case; harness exceptions are kept apart from violations."""
     if case.get('forked') and not _IN_FORK[0]:
         return _run_in_fork(mod, case, allowance)
+    # the allowance is processor time of this process (ITIMER_PROF), not wall
+    # clock: a loaded machine must not turn a slow case into a verdict.  The
+    # wall-clock backstop is ten times as long (a case blocked without using
+    # the processor); beyond that, faulthandler ends the worker.
+    signal.signal(signal.SIGPROF, _alarm)
     signal.signal(signal.SIGALRM, _alarm)
-    signal.alarm(allowance)
+    signal.setitimer(signal.ITIMER_PROF, allowance)
+    signal.alarm(allowance * 10)
     devices.CTX.fired = {}
     devices.CTX.slept_ms = 0
     devices.CTX.task = 'ctor'
@@ -200,6 +207,7 @@ def run_guarded(mod, case, allowance=30):
         out = outcome('hang', vclass='hang', msg='case did not finish in %ds'
                       % allowance, sig={'vclass': 'hang'})
     finally:
+        signal.setitimer(signal.ITIMER_PROF, 0)
         signal.alarm(0)
     if devices.CTX.unraisable:
         out['probes']['unraisable-in-finaliser'] = len(devices.CTX.unraisable)
@@ -243,7 +251,7 @@ def _work(args):
             if time.time() > deadline:
                 agg['truncated'] = True
                 break
-            faulthandler.dump_traceback_later(300, exit=True)
+            faulthandler.dump_traceback_later(900, exit=True)
             rng = case_rng(seed, mod.PROP, g)
             case = mod.gen_case(rng, tier, g)
             case['g'] = g
